@@ -168,6 +168,12 @@ pub fn heartbeat() {
 }
 pub fn describe_current(s: &str) {
     *CURRENT.lock().unwrap() = s.to_string();
+    // VERIF_CURRENT_FILE: the driver reads this file when the harness process dies of a signal (a segmentation
+    // fault or abort of the implementation cannot be caught in-process), so that the crash is reported with the
+    // input that was running
+    if let Ok(p) = std::env::var("VERIF_CURRENT_FILE") {
+        let _ = std::fs::write(p, s);
+    }
     heartbeat();
 }
 /// a child process is over its limit: `cpu_secs` of CPU time used, or `wall_secs` elapsed
